@@ -6,11 +6,12 @@ use emit::Frame;
 use emit_traceparent::{TraceFlags, Traceparent, Tracestate};
 
 use crate::exec::{alternating, block_on, catch_fut, catch_planned, join, planned_panic, yield_now, BoxFut};
-use crate::rt::{Log, Rt, Sc, Tp, L};
+use crate::rt::{Log, Rt, RtCtxt, Sc, Tp, L};
 use crate::tree::{u128_of, Carry, Form, Header, PItem, PNode, PushVia, RunHow};
 
-pub struct Env<'a> {
-    pub rt: &'a Rt,
+pub struct Env<'a, 'c, C: RtCtxt> {
+    /// (`'c`: the borrow of the runtime, which captured frames keep; `'a`: everything else)
+    pub rt: &'c Rt<C>,
     pub log: &'a Log,
     /// inert since the `Frame::current` finding was fixed in /repo (158005a): only true if that signature is
     /// ever listed as a known finding again, in which case the body of a hop whose carried context did
@@ -19,13 +20,13 @@ pub struct Env<'a> {
     /// first panic caught on a helper thread
     pub fail: &'a std::sync::Mutex<Option<vcore::Fail>>,
     /// frames captured by `CaptureFrame` items, by slot, until a `RunFrame` takes them
-    pub frames: &'a [std::sync::Mutex<Option<CapturedFrame>>],
+    pub frames: &'a [std::sync::Mutex<Option<CapturedFrame<'c, C>>>],
 }
 
-/// (the ctxt is `Copy`: the frame owns a copy, so it borrows nothing)
-pub type CapturedFrame = Frame<emit_traceparent::TraceparentCtxt<emit::platform::thread_local_ctxt::ThreadLocalCtxt>>;
+/// (a frame on the runtime's ctxt by reference, as `Frame::current(rt.ctxt())` gives)
+pub type CapturedFrame<'a, C> = Frame<&'a C>;
 
-impl<'a> Env<'a> {
+impl<'a, 'c, C: RtCtxt> Env<'a, 'c, C> {
     fn push(&self, l: L) {
         self.log.lock().unwrap().push(l);
     }
@@ -34,15 +35,15 @@ impl<'a> Env<'a> {
     }
 }
 
-fn check(env: &Env, id: usize) {
+fn check<C: RtCtxt>(env: &Env<C>, id: usize) {
     env.push(L::Check { id, tp: Tp::current(), sc: env.sc() });
 }
 
-fn body_start(env: &Env, node: &PNode) {
+fn body_start<C: RtCtxt>(env: &Env<C>, node: &PNode) {
     env.push(L::Body { node: node.id, tp: Tp::current(), sc: env.sc() });
 }
 
-fn event(env: &Env, id: usize) {
+fn event<C: RtCtxt>(env: &Env<C>, id: usize) {
     emit::emit!(rt: env.rt, "event {eid}", eid: id as u64);
 }
 
@@ -50,12 +51,12 @@ fn event(env: &Env, id: usize) {
 // span call sites, sync
 
 #[emit::span(rt: env.rt, mdl: emit::Path::new_raw(node.mdl), "sync_fn")]
-fn span_sync_fn(env: &Env, node: &PNode) {
+fn span_sync_fn<C: RtCtxt>(env: &Env<C>, node: &PNode) {
     body_start(env, node);
     run_sync(env, &node.items);
 }
 
-fn span_manual_call(env: &Env, node: &PNode) {
+fn span_manual_call<C: RtCtxt>(env: &Env<C>, node: &PNode) {
     let (mut guard, frame) = emit::new_span!(rt: env.rt, mdl: emit::Path::new_raw(node.mdl), "manual_call");
     frame.call(move || {
         guard.start();
@@ -65,7 +66,7 @@ fn span_manual_call(env: &Env, node: &PNode) {
     })
 }
 
-fn span_manual_enter(env: &Env, node: &PNode) {
+fn span_manual_enter<C: RtCtxt>(env: &Env<C>, node: &PNode) {
     let (guard, mut frame) = emit::new_span!(rt: env.rt, mdl: emit::Path::new_raw(node.mdl), "manual_enter");
     {
         let _entered = frame.enter();
@@ -80,7 +81,7 @@ fn span_manual_enter(env: &Env, node: &PNode) {
 }
 
 #[emit::span(rt: env.rt, guard: span, mdl: emit::Path::new_raw(node.mdl), "guard_sync")]
-fn span_guard_sync(env: &Env, node: &PNode) {
+fn span_guard_sync<C: RtCtxt>(env: &Env<C>, node: &PNode) {
     body_start(env, node);
     run_sync(env, &node.items);
     span.complete();
@@ -100,7 +101,7 @@ fn as_dyn_err(e: &std::io::Error) -> &(dyn std::error::Error + 'static) {
 }
 
 #[emit::span(rt: env.rt, ok_lvl: emit::Level::Debug, mdl: emit::Path::new_raw(node.mdl), "result_ok_lvl_sync")]
-fn span_result_ok_lvl_sync(env: &Env, node: &PNode) -> Result<(), std::io::Error> {
+fn span_result_ok_lvl_sync<C: RtCtxt>(env: &Env<C>, node: &PNode) -> Result<(), std::io::Error> {
     body_start(env, node);
     run_sync(env, &node.items);
     match node.id % 3 {
@@ -114,7 +115,7 @@ fn span_result_ok_lvl_sync(env: &Env, node: &PNode) -> Result<(), std::io::Error
 }
 
 #[emit::span(rt: env.rt, err_lvl: emit::Level::Warn, mdl: emit::Path::new_raw(node.mdl), "result_err_lvl_sync")]
-fn span_result_err_lvl_sync(env: &Env, node: &PNode) -> Result<(), std::io::Error> {
+fn span_result_err_lvl_sync<C: RtCtxt>(env: &Env<C>, node: &PNode) -> Result<(), std::io::Error> {
     body_start(env, node);
     run_sync(env, &node.items);
     match node.id % 3 {
@@ -128,7 +129,7 @@ fn span_result_err_lvl_sync(env: &Env, node: &PNode) -> Result<(), std::io::Erro
 }
 
 #[emit::span(rt: env.rt, err: as_dyn_err, mdl: emit::Path::new_raw(node.mdl), "result_err_sync")]
-fn span_result_err_sync(env: &Env, node: &PNode) -> Result<(), std::io::Error> {
+fn span_result_err_sync<C: RtCtxt>(env: &Env<C>, node: &PNode) -> Result<(), std::io::Error> {
     body_start(env, node);
     run_sync(env, &node.items);
     match node.id % 3 {
@@ -142,13 +143,13 @@ fn span_result_err_sync(env: &Env, node: &PNode) -> Result<(), std::io::Error> {
 }
 
 #[emit::span(rt: env.rt, guard: span, mdl: emit::Path::new_raw(node.mdl), "guard_complete_with_sync")]
-fn span_guard_complete_with_sync(env: &Env, node: &PNode) {
+fn span_guard_complete_with_sync<C: RtCtxt>(env: &Env<C>, node: &PNode) {
     body_start(env, node);
     run_sync(env, &node.items);
     span.complete_with(emit::span::completion::default(env.rt.emitter(), env.rt.ctxt()));
 }
 
-fn span_manual_complete_with(env: &Env, node: &PNode) {
+fn span_manual_complete_with<C: RtCtxt>(env: &Env<C>, node: &PNode) {
     let (mut guard, frame) = emit::new_span!(rt: env.rt, mdl: emit::Path::new_raw(node.mdl), "manual_complete_with");
     frame.call(move || {
         guard.start();
@@ -162,12 +163,12 @@ fn span_manual_complete_with(env: &Env, node: &PNode) {
 // span call sites, async
 
 #[emit::span(rt: env.rt, mdl: emit::Path::new_raw(node.mdl), "async_fn")]
-async fn span_async_fn(env: &Env<'_>, node: &PNode) {
+async fn span_async_fn<C: RtCtxt>(env: &Env<'_, '_, C>, node: &PNode) {
     body_start(env, node);
     run_async(env, &node.items).await;
 }
 
-async fn span_manual_future(env: &Env<'_>, node: &PNode) {
+async fn span_manual_future<C: RtCtxt>(env: &Env<'_, '_, C>, node: &PNode) {
     let (mut guard, frame) = emit::new_span!(rt: env.rt, mdl: emit::Path::new_raw(node.mdl), "manual_future");
     frame
         .in_future(async move {
@@ -180,14 +181,14 @@ async fn span_manual_future(env: &Env<'_>, node: &PNode) {
 }
 
 #[emit::span(rt: env.rt, guard: span, mdl: emit::Path::new_raw(node.mdl), "guard_async")]
-async fn span_guard_async(env: &Env<'_>, node: &PNode) {
+async fn span_guard_async<C: RtCtxt>(env: &Env<'_, '_, C>, node: &PNode) {
     body_start(env, node);
     run_async(env, &node.items).await;
     span.complete();
 }
 
 #[emit::span(rt: env.rt, ok_lvl: emit::Level::Debug, mdl: emit::Path::new_raw(node.mdl), "result_ok_lvl_async")]
-async fn span_result_ok_lvl_async(env: &Env<'_>, node: &PNode) -> Result<(), std::io::Error> {
+async fn span_result_ok_lvl_async<C: RtCtxt>(env: &Env<'_, '_, C>, node: &PNode) -> Result<(), std::io::Error> {
     body_start(env, node);
     run_async(env, &node.items).await;
     match node.id % 3 {
@@ -201,7 +202,7 @@ async fn span_result_ok_lvl_async(env: &Env<'_>, node: &PNode) -> Result<(), std
 }
 
 #[emit::span(rt: env.rt, err_lvl: emit::Level::Warn, mdl: emit::Path::new_raw(node.mdl), "result_err_lvl_async")]
-async fn span_result_err_lvl_async(env: &Env<'_>, node: &PNode) -> Result<(), std::io::Error> {
+async fn span_result_err_lvl_async<C: RtCtxt>(env: &Env<'_, '_, C>, node: &PNode) -> Result<(), std::io::Error> {
     body_start(env, node);
     run_async(env, &node.items).await;
     match node.id % 3 {
@@ -215,7 +216,7 @@ async fn span_result_err_lvl_async(env: &Env<'_>, node: &PNode) -> Result<(), st
 }
 
 #[emit::span(rt: env.rt, err: as_dyn_err, mdl: emit::Path::new_raw(node.mdl), "result_err_async")]
-async fn span_result_err_async(env: &Env<'_>, node: &PNode) -> Result<(), std::io::Error> {
+async fn span_result_err_async<C: RtCtxt>(env: &Env<'_, '_, C>, node: &PNode) -> Result<(), std::io::Error> {
     body_start(env, node);
     run_async(env, &node.items).await;
     match node.id % 3 {
@@ -229,7 +230,7 @@ async fn span_result_err_async(env: &Env<'_>, node: &PNode) -> Result<(), std::i
 }
 
 #[emit::span(rt: env.rt, guard: span, mdl: emit::Path::new_raw(node.mdl), "guard_complete_with_async")]
-async fn span_guard_complete_with_async(env: &Env<'_>, node: &PNode) {
+async fn span_guard_complete_with_async<C: RtCtxt>(env: &Env<'_, '_, C>, node: &PNode) {
     body_start(env, node);
     run_async(env, &node.items).await;
     span.complete_with(emit::span::completion::from_fn(|span| emit::emit!(rt: env.rt, evt: span)));
@@ -238,13 +239,13 @@ async fn span_guard_complete_with_async(env: &Env<'_>, node: &PNode) {
 // ---------------------------------------------------------------------------------------------
 // span call sites where the span's OWN frame (the one `new_span!` returns) travels to another thread
 
-fn far_end(env: &Env, node: &PNode) {
+fn far_end<C: RtCtxt>(env: &Env<C>, node: &PNode) {
     if let Some(id) = node.far_end {
         check(env, id);
     }
 }
 
-fn span_handoff_call(env: &Env, node: &PNode) {
+fn span_handoff_call<C: RtCtxt>(env: &Env<C>, node: &PNode) {
     let (mut guard, frame) = emit::new_span!(rt: env.rt, mdl: emit::Path::new_raw(node.mdl), "handoff_call");
     let r = std::thread::scope(|s| {
         s.spawn(move || {
@@ -265,7 +266,7 @@ fn span_handoff_call(env: &Env, node: &PNode) {
     rejoin(env, r);
 }
 
-fn span_handoff_in_fn(env: &Env, node: &PNode) {
+fn span_handoff_in_fn<C: RtCtxt>(env: &Env<C>, node: &PNode) {
     let (mut guard, frame) = emit::new_span!(rt: env.rt, mdl: emit::Path::new_raw(node.mdl), "handoff_in_fn");
     let on_thread = frame.in_fn(move || {
         guard.start();
@@ -285,7 +286,7 @@ fn span_handoff_in_fn(env: &Env, node: &PNode) {
     rejoin(env, r);
 }
 
-fn span_handoff_enter_back(env: &Env, node: &PNode) {
+fn span_handoff_enter_back<C: RtCtxt>(env: &Env<C>, node: &PNode) {
     let (mut guard, mut frame) = emit::new_span!(rt: env.rt, mdl: emit::Path::new_raw(node.mdl), "handoff_enter_back");
     let r = std::thread::scope(|s| {
         s.spawn(move || {
@@ -313,7 +314,7 @@ fn span_handoff_enter_back(env: &Env, node: &PNode) {
     }
 }
 
-async fn span_handoff_future(env: &Env<'_>, node: &PNode) {
+async fn span_handoff_future<C: RtCtxt>(env: &Env<'_, '_, C>, node: &PNode) {
     let (mut guard, frame) = emit::new_span!(rt: env.rt, mdl: emit::Path::new_raw(node.mdl), "handoff_future");
     alternating(
         frame.in_future(async move {
@@ -331,7 +332,7 @@ async fn span_handoff_future(env: &Env<'_>, node: &PNode) {
 // ---------------------------------------------------------------------------------------------
 // dispatch
 
-fn span_sync(env: &Env, node: &PNode) {
+fn span_sync<C: RtCtxt>(env: &Env<C>, node: &PNode) {
     match node.form {
         Form::SyncFn => {
             env.push(L::Begin(node.id));
@@ -385,7 +386,7 @@ fn span_sync(env: &Env, node: &PNode) {
     }
 }
 
-fn span_async<'a>(env: &'a Env<'a>, node: &'a PNode) -> BoxFut<'a> {
+fn span_async<'a, 'c, C: RtCtxt>(env: &'a Env<'a, 'c, C>, node: &'a PNode) -> BoxFut<'a> {
     match node.form {
         // `Begin` is logged in the first poll, which also starts the span and reaches `body_start`
         Form::AsyncFn => Box::pin(async move {
@@ -424,12 +425,12 @@ fn span_async<'a>(env: &'a Env<'a>, node: &'a PNode) -> BoxFut<'a> {
     }
 }
 
-pub fn run_root(env: &Env, prog: &crate::tree::Prog) {
+pub fn run_root<C: RtCtxt>(env: &Env<C>, prog: &crate::tree::Prog) {
     run_sync(env, &prog.items);
     check(env, prog.final_check);
 }
 
-pub fn run_sync(env: &Env, items: &[PItem]) {
+pub fn run_sync<C: RtCtxt>(env: &Env<C>, items: &[PItem]) {
     for it in items {
         match it {
             PItem::Span(n) => {
@@ -444,7 +445,7 @@ pub fn run_sync(env: &Env, items: &[PItem]) {
                 let _ = catch_planned(|| run_sync(env, items));
                 check(env, *post);
             }
-            PItem::CaptureFrame { slot, props } => capture_frame(env, *slot, *props),
+            PItem::CaptureFrame { slot, props, root } => capture_frame(env, *slot, *props, *root),
             PItem::RunFrame { frame, how, items, pre, end, post, .. } => {
                 match frame.and_then(|f| env.frames[f].lock().unwrap().take()) {
                     None if *how == RunHow::OtherThread => run_frame_elsewhere(env, None, items, *pre, *end),
@@ -497,7 +498,7 @@ pub fn run_sync(env: &Env, items: &[PItem]) {
     }
 }
 
-pub fn run_async<'a>(env: &'a Env<'a>, items: &'a [PItem]) -> BoxFut<'a> {
+pub fn run_async<'a, 'c, C: RtCtxt>(env: &'a Env<'a, 'c, C>, items: &'a [PItem]) -> BoxFut<'a> {
     Box::pin(async move {
         for it in items {
             match it {
@@ -513,7 +514,7 @@ pub fn run_async<'a>(env: &'a Env<'a>, items: &'a [PItem]) -> BoxFut<'a> {
                     catch_fut(run_async(env, items)).await;
                     check(env, *post);
                 }
-                PItem::CaptureFrame { slot, props } => capture_frame(env, *slot, *props),
+                PItem::CaptureFrame { slot, props, root } => capture_frame(env, *slot, *props, *root),
                 PItem::RunFrame { frame, how, items, pre, end, post, .. } => {
                     match frame.and_then(|f| env.frames[f].lock().unwrap().take()) {
                         None if *how == RunHow::OtherThread => run_frame_elsewhere(env, None, items, *pre, *end),
@@ -574,7 +575,7 @@ pub fn run_async<'a>(env: &'a Env<'a>, items: &'a [PItem]) -> BoxFut<'a> {
     })
 }
 
-fn spawn_tasks<'a>(env: &'a Env<'a>, carry: bool, tasks: &'a [Vec<PItem>]) -> Vec<BoxFut<'a>> {
+fn spawn_tasks<'a, 'c, C: RtCtxt>(env: &'a Env<'a, 'c, C>, carry: bool, tasks: &'a [Vec<PItem>]) -> Vec<BoxFut<'a>> {
     tasks
         .iter()
         .map(|t| -> BoxFut<'a> {
@@ -590,10 +591,13 @@ fn spawn_tasks<'a>(env: &'a Env<'a>, carry: bool, tasks: &'a [Vec<PItem>]) -> Ve
 // ---------------------------------------------------------------------------------------------
 // non-span frames captured at one point and entered at another
 
-fn capture_frame(env: &Env, slot: usize, props: bool) {
-    let ctxt = *env.rt.ctxt();
-    let frame = if props {
-        let job = slot as u64;
+fn capture_frame<C: RtCtxt>(env: &Env<C>, slot: usize, props: bool, root: bool) {
+    let rt = env.rt;
+    let ctxt = rt.ctxt();
+    let job = slot as u64;
+    let frame = if root {
+        Frame::root(ctxt, emit::props! { job })
+    } else if props {
         Frame::push(ctxt, emit::props! { job })
     } else {
         Frame::current(ctxt)
@@ -601,7 +605,7 @@ fn capture_frame(env: &Env, slot: usize, props: bool) {
     *env.frames[slot].lock().unwrap() = Some(frame);
 }
 
-fn run_frame_elsewhere(env: &Env, frame: Option<CapturedFrame>, items: &[PItem], pre: usize, end: Option<usize>) {
+fn run_frame_elsewhere<C: RtCtxt>(env: &Env<C>, frame: Option<CapturedFrame<'_, C>>, items: &[PItem], pre: usize, end: Option<usize>) {
     let r = std::thread::scope(|s| {
         s.spawn(move || {
             vcore::catch(move || {
@@ -633,7 +637,7 @@ fn traceparent(trace: Option<u128>, span: Option<u64>, flags: u8) -> Traceparent
     Traceparent::new(trace.and_then(TraceId::from_u128), span.and_then(SpanId::from_u64), TraceFlags::from_u8(flags))
 }
 
-fn push_header(env: &Env, id: usize, header: &Header, via: PushVia) -> Frame<emit_traceparent::TraceparentCtxt> {
+fn push_header<C: RtCtxt>(env: &Env<C>, id: usize, header: &Header, via: PushVia) -> Frame<emit_traceparent::TraceparentCtxt> {
     let wanted: Option<Tp> = match header {
         Header::Unparsable => None,
         Header::Valid { trace, span, flags } => Some(Tp { trace: Some(u128_of(*trace)), span: Some((*span).max(1)), flags: *flags }),
@@ -660,7 +664,7 @@ fn push_header(env: &Env, id: usize, header: &Header, via: PushVia) -> Frame<emi
 
 /// Panics on helper threads are caught there (vcore keeps the panic site per thread) and parked in
 /// `env.fail`; the oracle reports the first one before judging anything else.
-fn rejoin(env: &Env, r: std::thread::Result<Result<(), vcore::Fail>>) {
+fn rejoin<C: RtCtxt>(env: &Env<C>, r: std::thread::Result<Result<(), vcore::Fail>>) {
     let fail = match r {
         Ok(Ok(())) => return,
         Ok(Err(f)) => f,
@@ -673,7 +677,7 @@ fn rejoin(env: &Env, r: std::thread::Result<Result<(), vcore::Fail>>) {
 }
 
 /// "Next service": what a client does with an outgoing request and a server with the incoming one.
-fn service(env: &Env, id: usize, items: &[PItem], pre: usize, end: usize) {
+fn service<C: RtCtxt>(env: &Env<C>, id: usize, items: &[PItem], pre: usize, end: usize) {
     let current = Traceparent::current();
     let text = if current.is_valid() { Some(current.to_string()) } else { None };
     env.push(L::ServiceHeader { id, text: text.clone() });
@@ -701,7 +705,7 @@ fn service(env: &Env, id: usize, items: &[PItem], pre: usize, end: usize) {
 }
 
 /// Same service, fresh thread (joined before going on).
-fn hop(env: &Env, id: usize, carry: Carry, fut: bool, items: &[PItem], pre: usize, end: usize) {
+fn hop<C: RtCtxt>(env: &Env<C>, id: usize, carry: Carry, fut: bool, items: &[PItem], pre: usize, end: usize) {
     let before = Tp::current();
     let tp_frame = match carry {
         Carry::TraceparentPush | Carry::Both => Some(Traceparent::current().push()),
@@ -750,7 +754,7 @@ fn hop(env: &Env, id: usize, carry: Carry, fut: bool, items: &[PItem], pre: usiz
     rejoin(env, r);
 }
 
-fn hop_future<'a>(env: &'a Env<'a>, id: usize, before: Tp, items: &'a [PItem], pre: usize) -> BoxFut<'a> {
+fn hop_future<'a, 'c, C: RtCtxt>(env: &'a Env<'a, 'c, C>, id: usize, before: Tp, items: &'a [PItem], pre: usize) -> BoxFut<'a> {
     Box::pin(async move {
         let inside = Tp::current();
         env.push(L::HopEntry { id, before, inside });
